@@ -7,7 +7,8 @@ concrete carrier `LogReal` (ℝ plus `-∞`) with `Real.exp` / `Real.log` (`logL
 underflow of IEEE doubles are outside the theorems (the property's own escape clause).
 -/
 import Mathlib.Analysis.SpecialFunctions.Log.Basic
-import TsdateVerif.Proofs.DiscreteLog
+import Mathlib.Analysis.SpecialFunctions.Pow.Real
+import TsdateVerif.Proofs.DiscreteLogHom
 
 namespace Tsdate.C12
 open Tsdate Tsdate.Discrete
@@ -60,6 +61,56 @@ theorem ratio0_log_eq_lin (h : LogLaws E log negInf) (x y : β) (hdef : y = negI
 
 end
 
+
+/-! ### The passes -/
+
+section
+variable {α β : Type} [Field α] [LinearOrder α] [IsStrictOrderedRing α] [BEq α] [LawfulBEq α]
+  [Inhabited α] [Inhabited β]
+  [Add β] [Sub β] [Mul β] [OfNat β 0] [LE β] [DecidableLE β] [LT β] [DecidableLT β] [BEq β] [LawfulBEq β]
+  {E : β → α} {log : α → β} {negInf : β}
+
+/-- **Every step of the log-space inside and outside passes is the image of the linear-space step.**
+Run the *same* generic pass definitions with `logOps` (what `LogLikelihoods` provides) on an input and
+with `linOps` (`Likelihoods`) on the `exp`-image of that input (tables and priors through `E`, span
+fractions through `F`).  Then: every inside row, denominator and cached message, the marginal
+likelihood, and every outside row of the linear run are `E` of those of the log run — hence identical
+posteriors after `exp`.  Hypotheses: the laws of `exp`/`log` (`LogLaws`), `E 0 = 1`, `E` strictly
+monotone, `E (f * v) = (E v) ** (F f)` for admissible span fractions, the conversions of the initial
+outside values agree, and the guards `insideGuards`/`outsideGuards` hold **on the linear run**: span
+fractions admissible, no denominator or standardiser is 0, and `0/0` is the only division by zero
+(these are exactly the situations in which the two implementations would produce `nan`/`inf`; the code
+asserts the denominator condition itself). -/
+theorem pass_log_eq_lin (h : LogLaws E log negInf) (logB : β → β) (pow : α → α → α) (F : β → α)
+    (Pn : α → Prop) (hzero : E (0 : β) = 1) (hlt : ∀ x y : β, x < y ↔ E x < E y)
+    (hscale : ∀ f v, Pn (F f) → E (f * v) = pow (F f) (E v))
+    (hE : E default = default) (hF : F default = default)
+    (inp : Input β) (stdIn stdOut ign : Bool) (order : List DEdge) (zL : β) (zN : α)
+    (hz : E (logB zL) = zN)
+    (hr : ∀ r ∈ inp.roots, E (logB r.2) = F r.2 ∧ Pn (F r.2))
+    (hgi : insideGuards Pn (linOps pow) (inp.mapE E F) stdIn (groupRuns (·.p) inp.edges)
+      ((insideInit (logOps E log logB negInf) inp).mapE E))
+    (hgo : outsideGuards Pn (linOps pow) (inp.mapE E F)
+      ((insidePass (logOps E log logB negInf) inp stdIn).1.mapE E) stdOut ign
+      (groupRuns (·.c) order) (outsideInit (linOps pow) (inp.mapE E F) zN)) :
+    (insidePass (logOps E log logB negInf) inp stdIn).1.mapE E
+        = (insidePass (linOps pow) (inp.mapE E F) stdIn).1 ∧
+    E (insidePass (logOps E log logB negInf) inp stdIn).2
+        = (insidePass (linOps pow) (inp.mapE E F) stdIn).2 ∧
+    (outsidePass (logOps E log logB negInf) inp (insidePass (logOps E log logB negInf) inp stdIn).1
+        stdOut ign order zL).map (fun r : Array β => r.map E)
+      = outsidePass (linOps pow) (inp.mapE E F) (insidePass (linOps pow) (inp.mapE E F) stdIn).1
+          stdOut ign order zN :=
+  pass_hom (logOps_hom h logB pow F Pn hzero hlt hscale) hE hF inp stdIn stdOut ign order zL zN hz hr
+    hgi hgo
+
+/-- `posterior_grid = combine(inside, outside)` is preserved as well. -/
+theorem posterior_log_eq_lin (h : LogLaws E log negInf) (x y : List β) :
+    (List.zipWith (· + ·) x y).map E = List.zipWith (· * ·) (x.map E) (y.map E) :=
+  map_zipWith_hom (· + ·) (· * ·) E h.add x y
+
+end
+
 /-! ### The laws are satisfiable: ℝ ∪ {-∞} with the real exponential -/
 
 /-- Concrete log carrier. -/
@@ -76,6 +127,21 @@ noncomputable instance : Sub LogReal :=
 instance : LE LogReal :=
   ⟨fun x y => match x, y with | bot, _ => True | fin _, bot => False | fin a, fin b => a ≤ b⟩
 noncomputable instance : DecidableLE LogReal := fun _ _ => Classical.dec _
+noncomputable instance : Mul LogReal :=
+  ⟨fun x y => match x, y with | fin a, fin b => fin (a * b) | _, _ => bot⟩
+noncomputable instance : OfNat LogReal 0 := ⟨fin 0⟩
+instance : LT LogReal :=
+  ⟨fun x y => match x, y with | _, bot => False | bot, fin _ => True | fin a, fin b => a < b⟩
+noncomputable instance : DecidableLT LogReal := fun _ _ => Classical.dec _
+instance : Inhabited LogReal := ⟨bot⟩
+/-- a span fraction stored in the log carrier, read as a real number -/
+noncomputable def F : LogReal → ℝ
+  | bot => 0
+  | fin a => a
+/-- `np.log` of a linear-space number stored in the carrier (`log 0 = -∞`) -/
+noncomputable def logB : LogReal → LogReal
+  | bot => bot
+  | fin a => if a = 0 then bot else fin (Real.log a)
 /-- `exp`, with `exp (-∞) = 0` -/
 noncomputable def E : LogReal → ℝ
   | bot => 0
@@ -119,6 +185,48 @@ theorem logLaws_real : LogLaws LogReal.E LogReal.log LogReal.bot where
       cases y with
       | bot => simp [E]
       | fin v => show Real.exp (u + v) = Real.exp u * Real.exp v; exact Real.exp_add u v
+
+
+open LogReal in
+/-- The additional laws of `pass_log_eq_lin` hold for the real exponential with
+`pow f v = v ^ f` (`Real.rpow`) and admissible fractions `0 < f`. -/
+theorem passLaws_real :
+    LogReal.E (0 : LogReal) = 1 ∧ (∀ x y : LogReal, x < y ↔ LogReal.E x < LogReal.E y) ∧
+    (∀ f v : LogReal, 0 < LogReal.F f → LogReal.E (f * v) = (LogReal.E v) ^ (LogReal.F f)) ∧
+    LogReal.E default = default ∧ LogReal.F default = default ∧
+    (∀ r : LogReal, 0 < LogReal.F r → LogReal.E (LogReal.logB r) = LogReal.F r) ∧
+    LogReal.E (LogReal.logB (LogReal.fin 0)) = 0 := by
+  refine ⟨Real.exp_zero, ?_, ?_, rfl, rfl, ?_, ?_⟩
+  · intro x y
+    cases x with
+    | bot =>
+      cases y with
+      | bot => exact ⟨fun h => h.elim, fun h => absurd h (lt_irrefl _)⟩
+      | fin b => exact ⟨fun _ => Real.exp_pos b, fun _ => trivial⟩
+    | fin a =>
+      cases y with
+      | bot => exact ⟨fun h => h.elim, fun h => absurd h (not_lt.mpr (le_of_lt (Real.exp_pos a)))⟩
+      | fin b => exact Real.exp_lt_exp.symm
+  · intro f v hf
+    cases f with
+    | bot => exact absurd hf (lt_irrefl _)
+    | fin r =>
+      cases v with
+      | bot =>
+        have hr' : (0 : ℝ) < r := hf
+        show (0 : ℝ) = (0 : ℝ) ^ r
+        rw [Real.zero_rpow (ne_of_gt hr')]
+      | fin w => show Real.exp (r * w) = (Real.exp w) ^ r; rw [mul_comm, Real.exp_mul]
+  · intro r hr
+    cases r with
+    | bot => exact absurd hr (lt_irrefl _)
+    | fin a =>
+      show LogReal.E (if a = 0 then bot else fin (Real.log a)) = a
+      have hr' : (0 : ℝ) < a := hr
+      rw [if_neg (ne_of_gt hr')]
+      exact Real.exp_log hr'
+  · show LogReal.E (if (0 : ℝ) = 0 then bot else fin (Real.log 0)) = 0
+    rw [if_pos rfl]; rfl
 
 /-! Non-vacuity: the streaming loop on a concrete list with `-∞` entries, a new maximum in the
 middle and a repeated value. -/
